@@ -1,6 +1,8 @@
 """C08 - string metrics return true (weighted) edit distances in SciPy layout."""
 import collections
+import functools
 import itertools
+import os
 import numpy as np
 import pandas as pd
 import gens
@@ -10,7 +12,12 @@ from core import call_impl
 # containers a "collection of strings" may arrive in.  Sized ones are accepted by the metric classes and the functional helpers,
 # the one-shot ones only by the functional helpers (documented "iterable of strings", they copy into a list first).
 SIZED_KINDS = ['list', 'tuple', 'ndarray', 'ndarray_U', 'series', 'series_shifted', 'series_permuted', 'series_gapped',
-               'series_str', 'series_dup', 'index', 'deque']
+               'series_str', 'series_dup', 'index', 'deque',
+               # pandas extension dtypes (what read_csv / astype hand out), NumPy's variable-width string dtype, array views, dict views
+               'series_string', 'series_infer', 'series_category', 'frame_column', 'pd_array', 'categorical', 'ndarray_T',
+               'ndarray_strided', 'ndarray_reversed', 'dict_keys', 'dict']
+# containers that can be refilled in place (the same object is handed to several calls with other content)
+MUTABLE_KINDS = ['list', 'deque', 'ndarray', 'ndarray_strided', 'series', 'series_permuted', 'series_str', 'series_dup']
 ONESHOT_KINDS = ['iterator', 'generator']
 
 # "any alphabet": a string is a sequence of CODE POINTS and one edit changes one code point, whatever its width in some encoding.
@@ -25,6 +32,8 @@ WIDE_ALPHABETS = {
     'same_low_bits': 'A\u0141\u0241\u4e41\U00010041\U00020041',                  # equal modulo 256, three of them equal modulo 65536
     'latin1_edge': '~\x7f\x80\u00ff\u0100\ufeff',                                # around the 7-bit / 8-bit borders, byte-order mark
     'whitespace': ' \t\nA\u00a0\u3000',
+    'ascii_case': 'aAbB',                                                          # a case-folding processor shows
+    'ascii_punct': 'aA-_.,;! 1',                                                   # a processor that drops non-alphanumerics / trims shows
 }
 ASCII_ALPHABETS = ['A', 'AC', 'ACGT', gens.AA]
 
@@ -72,6 +81,38 @@ def cont(rng, kind, xs):
         c = pd.Index(xs, dtype=object)
     elif kind == 'deque':
         c = collections.deque(xs)
+    elif kind == 'pd_array':
+        c = pd.array(xs, dtype='string')
+    elif kind == 'categorical':
+        c = pd.Categorical(xs)
+    elif kind == 'ndarray_T':                      # NumPy 2 variable-width strings
+        c = np.array(xs, dtype=np.dtypes.StringDType()) if hasattr(np.dtypes, 'StringDType') else np.array(xs, dtype=object).reshape(m)
+    elif kind == 'ndarray_strided':                # every second slot of a longer array (a column / slice view)
+        base = np.empty(2 * m + 1, dtype=object)
+        base[:] = ['#%d' % i for i in range(2 * m + 1)]
+        base[1::2] = xs
+        c = base[1::2]
+    elif kind == 'ndarray_reversed':               # negative stride
+        base = np.empty(m, dtype=object)
+        base[:] = xs[::-1]
+        c = base[::-1]
+    elif kind in ('dict_keys', 'dict'):            # ordered and sized, but only for distinct strings
+        if len(set(xs)) == m:
+            c = dict.fromkeys(xs) if kind == 'dict' else dict.fromkeys(xs).keys()
+        else:
+            kind, c = 'list', list(xs)
+    elif kind in ('series_string', 'series_infer', 'series_category', 'frame_column'):
+        lab = list(range(m))
+        rng.shuffle(lab)
+        if kind == 'series_string':
+            c = pd.Series(xs, index=lab, dtype='string')
+        elif kind == 'series_infer':               # what pandas 3 infers for strings (its default string dtype)
+            c = pd.Series(xs, index=lab) if m else pd.Series(xs, index=lab, dtype=object)
+        elif kind == 'series_category':
+            c = pd.Series(xs, index=lab, dtype='category')
+        else:
+            c = pd.DataFrame({'n': list(range(m)), 's': pd.Series(xs, index=lab, dtype=object)}, index=lab)['s']
+        return c, '%s(index=%s, dtype=%s)' % (kind, lab, c.dtype)
     elif kind == 'series':
         idx = None
         c = pd.Series(xs, dtype=object)
@@ -112,6 +153,630 @@ def _shape_eq(g, exp_shape, exp):
     return a.shape == exp_shape and np.array_equal(a.astype(np.float64).reshape(exp_shape), np.array(exp, dtype=np.float64).reshape(exp_shape))
 
 
+# ====================================================================== widened families (coverage audit, design_notes/C08_audit.md)
+SPECIAL_WEIGHTS = [(1, 1, 2), (1, 1, 3), (1, 1, 5), (1, 2, 1), (1, 7, 1), (2, 1, 1), (11, 1, 1), (1, 2, 3), (2, 1, 3), (2, 3, 1), (1, 2, 11), (3, 3, 1)]
+W_ALL = [1, 2, 3, 5, 7, 11]
+
+
+def draw_weights(rng):
+    """weight triples incl. the ones in which only some weights differ from the default 1 and the ones with substitution > insertion + deletion"""
+    r = rng.random()
+    if r < 0.2:
+        return (1, 1, 1)
+    if r < 0.6:
+        return rng.choice(SPECIAL_WEIGHTS)
+    return tuple(rng.choice(W_ALL) for _ in range(3))
+
+
+def build_metric(rng, w, Levenshtein, WeightedLevenshtein, ctx=None):
+    """a metric object with the weights w through one of the spellings of the constructor -> (object, spelling)"""
+    names = ['insertion_weight', 'deletion_weight', 'substitution_weight']
+    if w == (1, 1, 1) and rng.random() < 0.6:
+        how = rng.choice(['Levenshtein()', 'WeightedLevenshtein()'])
+        if ctx is not None:
+            ctx.count('constructor=' + how)
+        return (Levenshtein() if how == 'Levenshtein()' else WeightedLevenshtein()), how
+    how = rng.choice(['positional', 'keywords', 'keywords_shuffled', 'non_default_keywords', 'mixed', 'numpy_ints', 'positional_prefix'])
+    if ctx is not None:
+        ctx.count('constructor=' + how)
+        if 1 in w and w != (1, 1, 1):
+            ctx.count('weights_with_some_defaults')
+    if how == 'positional':
+        return WeightedLevenshtein(*w), 'WeightedLevenshtein(%d, %d, %d)' % w
+    if how == 'numpy_ints':
+        return WeightedLevenshtein(np.int64(w[0]), np.int64(w[1]), np.int64(w[2])), 'WeightedLevenshtein(np.int64(%d), np.int64(%d), np.int64(%d))' % w
+    if how == 'mixed':
+        return (WeightedLevenshtein(w[0], substitution_weight=w[2], deletion_weight=w[1]),
+                'WeightedLevenshtein(%d, substitution_weight=%d, deletion_weight=%d)' % (w[0], w[2], w[1]))
+    if how == 'positional_prefix':
+        args = list(w)
+        while args and args[-1] == 1:
+            args.pop()
+        return WeightedLevenshtein(*args), 'WeightedLevenshtein(%s)' % ', '.join(map(str, args))
+    items = list(zip(names, w))
+    if how == 'non_default_keywords':
+        items = [(k, v) for k, v in items if v != 1]
+    if how != 'keywords':
+        rng.shuffle(items)
+    return WeightedLevenshtein(**dict(items)), 'WeightedLevenshtein(%s)' % ', '.join('%s=%d' % kv for kv in items)
+
+
+def refill(c, kind, vals):
+    """overwrite the container IN PLACE so that it holds vals afterwards (the same object; list / deque may change their length)"""
+    if kind == 'list':
+        c[:] = vals
+    elif kind == 'deque':
+        c.clear()
+        c.extend(vals)
+    elif kind.startswith('series'):
+        assert len(c) == len(vals)
+        for k, v in enumerate(vals):
+            c.iloc[k] = v
+    else:
+        assert len(c) == len(vals)
+        for k, v in enumerate(vals):
+            c[k] = v
+
+
+class _Method(object):
+    def __init__(self, spec):
+        self.spec = spec
+
+    def dist(self, a, b, **kw):
+        return self.spec(a, b, **kw)
+
+
+class _CallableObject(object):
+    def __init__(self, spec):
+        self.spec = spec
+
+    def __call__(self, a, b, **kw):
+        return self.spec(a, b, **kw)
+
+
+class _EmptyCallable(_CallableObject):
+    """a callable that is falsy (a callable collection / registry with no entries): `metric is None` is the documented test"""
+    def __len__(self):
+        return 0
+
+
+CALLABLE_FLAVOURS = ['function', 'lambda', 'partial_positional', 'partial_keyword', 'bound_method', 'callable_object', 'falsy_callable_object']
+VALUE_TYPES = ['int', 'int', 'float', 'bigint', 'small']
+FALSY = dict(mode=None, flag=False, k=0, tag='', opts=())
+TRUTHY = dict(mode='y', flag=True, k=2, tag='u', opts=(2, 3))
+
+
+def make_callable(rng, ident):
+    """a metric callable of some kind whose value identifies both arguments and every keyword argument (also falsy ones)
+    -> (callable, value type, admissible dtypes, description)"""
+    p, q, r = rng.choice([(1000, 1, 0), (1, 1000, 5), (-1000, 3, -7), (37, -1000, 11)])
+    vt = rng.choice(VALUE_TYPES)
+
+    def spec(a, b, offset=0, scale=1, mode='x', flag=True, k=3, tag='t', opts=(1,), **more):
+        v = scale * (p * ident[str(a)] + q * ident[str(b)]) + r + offset + 100000 * sum(more.values())
+        # keyword arguments with falsy values count: None / False / 0 / '' / () are not the defaults
+        v += 1000000 * ((mode is None) + 2 * (flag is False) + 4 * (k == 0) + 8 * (tag == '') + 16 * (opts == ()) +
+                        32 * (mode == 'y') + 64 * (k == 2) + 128 * (tag == 'u') + 256 * (opts == (2, 3)))
+        if vt == 'float':
+            return v / 8.0 + 0.375
+        if vt == 'bigint':
+            return v * 2 ** 20 + (2 ** 53 + 1)
+        if vt == 'small':
+            return v % 251
+        return v
+    fl = rng.choice(CALLABLE_FLAVOURS)
+    if fl == 'function':
+        def f(a, b, **kw):
+            return spec(a, b, **kw)
+    elif fl == 'lambda':
+        f = lambda a, b, **kw: spec(a, b, **kw)                                   # noqa: E731
+    elif fl == 'partial_positional':
+        f = functools.partial(lambda bound, a, b, **kw: spec(a, b, **kw), 'bound')
+    elif fl == 'partial_keyword':
+        f = functools.partial(spec, offset=rng.randint(1, 9))
+    elif fl == 'bound_method':
+        f = _Method(spec).dist
+    elif fl == 'callable_object':
+        f = _CallableObject(spec)
+    else:
+        f = _EmptyCallable(spec)
+    dts = {'int': [np.int64, np.dtype(np.int64), int], 'float': [np.float64, np.dtype('float64'), float], 'bigint': [np.int64, np.dtype('int64')],
+           'small': [None, None, np.uint8, np.int16, np.dtype('uint8')]}[vt]
+    return f, vt, dts, '%s returning %s values, (p, q, r) = %s' % (fl, vt, (p, q, r))
+
+
+def draw_kwargs(rng):
+    """keyword arguments for a callable of make_callable: numbers, values that are falsy, names a helper might interpret itself"""
+    kw = {}
+    r = rng.random()
+    if r < 0.3:
+        return kw
+    for name in ('mode', 'flag', 'k', 'tag', 'opts'):
+        x = rng.random()
+        if x < 0.3:
+            kw[name] = FALSY[name]
+        elif x < 0.4:
+            kw[name] = TRUTHY[name]
+    for name, lo, hi in [('offset', 0, 5), ('scale', 1, 3), ('gap', 0, 4), ('weights', 0, 4), ('score_cutoff', 0, 4), ('dm', 1, 3), ('i', 1, 3)]:
+        if rng.random() < 0.25:
+            kw[name] = rng.randint(lo, hi)
+    return kw
+
+
+def _diff(g, exp, exact_ints=False):
+    """None when the call returned exactly exp (an ndarray: shape and every value), else a short description of the first difference"""
+    if g[0] != 'ok':
+        return 'raised %s' % (g[1],)
+    try:
+        a = np.asarray(g[1])
+        if a.shape != exp.shape:
+            return 'shape %s, expected %s' % (a.shape, exp.shape)
+        if a.size == 0:
+            return None
+        if exact_ints:
+            bad = [k for k, (u, v) in enumerate(zip(a.ravel().tolist(), exp.ravel().tolist())) if u != v]
+        else:
+            bad = np.flatnonzero(a.astype(np.float64).ravel() != exp.astype(np.float64).ravel()).tolist()
+        if not bad:
+            return None
+        pos = np.unravel_index(bad[0], a.shape)
+        return 'entry %s is %s, expected %s (%d of %d entries differ)' % (tuple(int(x) for x in pos), a[pos], exp[pos], len(bad), a.size)
+    except Exception as e:                                                       # an object that is no array of numbers
+        return 'result not comparable (%s): %s' % (type(e).__name__, str(g[1])[:80])
+
+
+def condensed(sq):
+    """the condensed vector of a square matrix by the FORMULA of the property: entry m*i + j - (i+2)(i+1)/2 for i < j"""
+    sq = np.asarray(sq)
+    m = sq.shape[0]
+    out = np.zeros((m * (m - 1)) // 2, dtype=sq.dtype)
+    if m >= 2:
+        i, j = np.triu_indices(m, 1)
+        out[m * i + j - ((i + 2) * (i + 1)) // 2] = sq[i, j]
+    return out
+
+
+def _arr(x, shape):
+    return np.array(x, dtype=np.int64).reshape(shape)
+
+
+def part_sessions(ctx, env):
+    """(d) sessions: one pair of collections, several metric objects (every constructor spelling), the functional helpers with the default
+    metric and with callables of every kind - all interleaved, on containers that are RE-USED between the calls and refilled in place."""
+    rng, ds, pkg = ctx.rng, env['ds'], env['pkg']
+    Lev, WLev, RL, PL, hc, ssd = env['Levenshtein'], env['WeightedLevenshtein'], env['RL'], env['PL'], env['hc'], env['ssd']
+    plans, reqs = [], []
+    for sno in range(60 if ctx.quick else 600):
+        al = draw_alphabet(rng, ctx, 0.5)
+        m, mb = rng.randint(0, 9), rng.randint(0, 6)
+
+        def rs(hi):
+            return ''.join(rng.choice(al) for _ in range(rng.randint(0, hi)))
+        xs = [rs(10) for _ in range(m)]
+        if m >= 2 and rng.random() < 0.5:                       # equal strings inside the collection
+            ctx.count('session_duplicates_in_A')
+            for _ in range(rng.randint(1, 3)):
+                xs[rng.randrange(m)] = xs[rng.randrange(m)]
+        ys = []
+        for _ in range(mb):
+            r = rng.random()
+            ys.append(rng.choice(xs) if xs and r < 0.35 else (gens.mutate(rng, rng.choice(xs), al, rng.randint(1, 3)) if xs and r < 0.7 else rs(9)))
+        kx, ky = rng.choice(MUTABLE_KINDS), rng.choice(MUTABLE_KINDS)
+        versions = [(list(xs), list(ys), 'initial')]
+        for _ in range(rng.randint(1, 3)):
+            x2, y2 = list(versions[-1][0]), list(versions[-1][1])
+            side = rng.choice('AAAB') if x2 else 'B'
+            tgt, kind = (x2, kx) if side == 'A' else (y2, ky)
+            how = rng.choice(['replace', 'replace', 'swap', 'reverse', 'rotate'] + (['append', 'pop', 'insert_front'] if kind in ('list', 'deque') else []))
+            if how == 'replace' and tgt:
+                k = rng.randrange(len(tgt))
+                tgt[k] = gens.mutate(rng, tgt[k], al, rng.randint(1, 3))
+            elif how == 'swap' and len(tgt) >= 2:
+                i, j = rng.sample(range(len(tgt)), 2)
+                tgt[i], tgt[j] = tgt[j], tgt[i]
+            elif how == 'reverse':
+                tgt.reverse()
+            elif how == 'rotate' and tgt:
+                tgt.append(tgt.pop(0))
+            elif how == 'append':
+                tgt.append(rs(9))
+            elif how == 'pop' and tgt:
+                tgt.pop()
+            elif how == 'insert_front':
+                tgt.insert(0, rs(9))
+            ctx.count('session_inplace_' + how)
+            versions.append((x2, y2, '%s of %s in place' % (how, side)))
+        ws = list(dict.fromkeys(draw_weights(rng) for _ in range(rng.randint(2, 3))))
+        if rng.random() < 0.3 and ws[0] != (ws[0][1], ws[0][0], ws[0][2]):
+            ws.append((ws[0][1], ws[0][0], ws[0][2]))
+            ws = list(dict.fromkeys(ws))
+        steps = []
+        ops = (['m_cdist', 'm_cdist_swapped', 'm_cdist_self_same', 'm_cdist_self_copy', 'm_pdist', 'm_pdist'] +
+               ['h_pdist_default', 'h_cdist_default', 'h_cdist_default_self_same', 'h_pdist_callable', 'h_cdist_callable',
+                'h_cdist_callable_self_same', 'h_cdist_callable_self_copy', 'h_cdist_callable_swapped'])
+        # the "anchor": one call (same metric object / callable, same container OBJECTS) made in every version of the collections, so that
+        # whatever an object or the module remembers about its last arguments (their identity, length, first element ...) is stale at the next one
+        anchor = dict(op=rng.choice(['m_pdist', 'm_pdist', 'm_cdist', 'm_cdist_self_same', 'h_pdist_default', 'h_pdist_callable', 'h_cdist_callable',
+                                     'h_cdist_default', 'h_cdist_callable_self_same']), k=rng.randrange(len(ws)), c=rng.randrange(2), persistent=True)
+        ctx.count('session_anchor=' + anchor['op'])
+        for v in range(len(versions)):
+            here = [dict(v=v, op=rng.choice(ops), k=rng.randrange(len(ws)), c=rng.randrange(2), persistent=rng.random() < 0.7) for _ in range(rng.randint(1, 4))]
+            if rng.random() < 0.5:
+                here.append(dict(here[0]))                          # the same call again after the others
+            here.insert(rng.choice([0, 0, len(here)]), dict(anchor, v=v))
+            if rng.random() < 0.3:
+                here.append(dict(anchor, v=v))
+            steps += here
+        base = len(reqs)
+        for v, (vx, vy, _) in enumerate(versions):
+            for w in ws:
+                reqs += [('api_cdist_wlev', [w[0], w[1], w[2], vx, vy]), ('api_cdist_wlev', [w[0], w[1], w[2], vy, vx]),
+                         ('api_cdist_wlev', [w[0], w[1], w[2], vx, vx]), ('api_pdist_wlev', [w[0], w[1], w[2], vx])]
+        plans.append(dict(al=al, versions=versions, kx=kx, ky=ky, ws=ws, steps=steps, base=base))
+    outs = ctx.oracle.run_parallel(reqs, nproc=12)
+    for sno, P in enumerate(plans):
+        versions, ws, kx, ky = P['versions'], P['ws'], P['kx'], P['ky']
+        objs = [build_metric(rng, w, Lev, WLev, ctx) for w in ws]
+        universe = sorted(set(s for vx, vy, _ in versions for s in vx + vy))
+        ident = {s: i for i, s in enumerate(universe)}
+        cals = [make_callable(rng, ident) for _ in range(2)]
+        (cx, dx), (cy, dy) = cont(rng, kx, versions[0][0]), cont(rng, ky, versions[0][1])
+        cur, history = 0, []
+        nt = len(versions[0][0]) >= 2 and len(set(versions[0][0])) >= 2
+        ctx.case(sample=dict(session=[s['op'] for s in P['steps']], metrics=[d for _, d in objs], A=versions[0][0][:4], B=versions[0][1][:4],
+                             in_place=[v[2] for v in versions[1:]]) if nt and sno % 12 == 1 else None,
+                 nontrivial_key=('session', tuple(versions[0][0]), tuple(versions[0][1]), tuple(ws), tuple(s['op'] for s in P['steps'])) if nt else None)
+        for st in P['steps']:
+            while cur < st['v']:
+                cur += 1
+                refill(cx, kx, versions[cur][0])
+                refill(cy, ky, versions[cur][1])
+                history.append('<%s>' % versions[cur][2])
+            xs, ys, _ = versions[cur]
+            w, (metric, spelling) = ws[st['k']], objs[st['k']]
+            o = P['base'] + 4 * (cur * len(ws) + st['k'])
+            cd_xy, cd_yx, cd_xx, pd_x = outs[o], outs[o + 1], outs[o + 2], outs[o + 3]
+            op = st['op']
+            ctx.count('session_op=' + op)
+
+            def arg(which):
+                """the persistent container of that side, or a fresh one of any kind"""
+                data, pc, pk, pdsc = (xs, cx, kx, dx) if which == 'A' else (ys, cy, ky, dy)
+                if st['persistent']:
+                    return pc, 'persistent ' + pk
+                knd = rng.choice(SIZED_KINDS)
+                return cont(rng, knd, data)[0], knd
+            exact = False
+            if op.startswith('m_'):
+                label = spelling
+                if op == 'm_cdist':
+                    (a, da), (b, db) = arg('A'), arg('B')
+                    g, exp, call = call_impl(metric.calc_cdist_matrix, a, b), _arr(cd_xy, (len(xs), len(ys))), 'calc_cdist_matrix(A as %s, B as %s)' % (da, db)
+                elif op == 'm_cdist_swapped':
+                    (a, da), (b, db) = arg('A'), arg('B')
+                    g, exp, call = call_impl(metric.calc_cdist_matrix, b, a), _arr(cd_yx, (len(ys), len(xs))), 'calc_cdist_matrix(B as %s, A as %s)' % (db, da)
+                elif op == 'm_cdist_self_same':
+                    a, da = arg('A')
+                    g, exp, call = call_impl(metric.calc_cdist_matrix, a, a), _arr(cd_xx, (len(xs), len(xs))), 'calc_cdist_matrix(A, A) with the same %s object twice' % da
+                elif op == 'm_cdist_self_copy':
+                    a, da = arg('A')
+                    k2 = rng.choice(SIZED_KINDS)
+                    g, exp, call = (call_impl(metric.calc_cdist_matrix, a, cont(rng, k2, xs)[0]), _arr(cd_xx, (len(xs), len(xs))),
+                                    'calc_cdist_matrix(A as %s, an equal copy of A as %s)' % (da, k2))
+                else:
+                    a, da = arg('A')
+                    g, exp, call = call_impl(metric.calc_pdist_vector, a), _arr(pd_x, (len(pd_x),)), 'calc_pdist_vector(A as %s)' % da
+                    if g[0] == 'ok' and len(xs) >= 2 and _diff(g, exp) is None:
+                        # "a valid input for linkage / squareform": both accept it and squareform puts entry (i, j) back
+                        v = np.asarray(g[1])
+                        lk = call_impl(lambda: (ssd.is_valid_y(v.astype(np.float64)), hc.linkage(v, 'single').shape, ssd.squareform(v)))
+                        ctx.count('linkage_squareform_accept')
+                        if lk[0] != 'ok' or not lk[1][0] or lk[1][1] != (len(xs) - 1, 4) or \
+                                not np.array_equal(np.triu(lk[1][2], 1), np.triu(_arr(cd_xx, (len(xs), len(xs))), 1)):
+                            ctx.violation('property', '%s.calc_pdist_vector(%s) = %s is not accepted by scipy linkage / squareform as the condensed matrix: %s' %
+                                          (label, xs, v.tolist(), str(lk)[:200]), dict(X=xs, weights=w, constructor=spelling), site='metric.calc_pdist_vector')
+                site = 'metric.calc_pdist_vector' if op == 'm_pdist' else 'metric.calc_cdist_matrix'
+                kwshow, dtshow = None, None
+            else:
+                use_default = 'default' in op
+                if use_default:
+                    kw = {} if (w == (1, 1, 1) and rng.random() < 0.5) else dict(weights=w)
+                    mname = rng.choice(['omitted', 'None', 'python-Levenshtein distance', 'rapidfuzz Levenshtein.distance'])
+                    mfun = {'omitted': None, 'None': None, 'python-Levenshtein distance': PL.distance, 'rapidfuzz Levenshtein.distance': RL.distance}[mname]
+                    label = 'default metric (%s)' % mname if mfun is None else mname
+                    tables = dict(pdist=_arr(pd_x, (len(pd_x),)), cdist=_arr(cd_xy, (len(xs), len(ys))), self=_arr(cd_xx, (len(xs), len(xs))),
+                                  swapped=_arr(cd_yx, (len(ys), len(xs))))
+                    top = max([0] + [int(t.max()) for t in tables.values() if t.size])
+                    dts = [np.uint16, np.int64, np.float64, np.dtype('int32'), float] if top > 255 else \
+                        [None, None, np.uint8, np.int32, np.int64, np.float64, np.dtype('uint8'), int]
+                else:
+                    mfun, vt, dts, cdesc = cals[st['c']]
+                    kw = draw_kwargs(rng)
+                    label, exact = 'callable #%d (%s)' % (st['c'], cdesc), vt == 'bigint'
+
+                    def table(R, C, pairs=None):
+                        if pairs is not None:
+                            vals = [mfun(R[i], R[j], **kw) for i in range(len(R)) for j in range(i + 1, len(R))]
+                            return np.array(vals, dtype=object if exact else np.float64).reshape(len(vals))
+                        return np.array([[mfun(a_, b_, **kw) for b_ in C] for a_ in R], dtype=object if exact else np.float64).reshape(len(R), len(C))
+                    tables = dict(pdist=table(xs, None, True), cdist=table(xs, ys), self=table(xs, xs), swapped=table(ys, xs))
+                dtype = rng.choice(dts)
+                kwshow, dtshow = dict(kw), getattr(dtype, '__name__', str(dtype))
+                extra = dict(kw)
+                if dtype is not None:
+                    extra['dtype'] = dtype
+                if mfun is not None or (use_default and mname == 'None'):
+                    extra['metric'] = mfun
+                fp, fc = rng.choice([(ds.pdist, ds.cdist), (pkg.pdist, pkg.cdist)])
+                if op.startswith('h_pdist'):
+                    a, da = arg('A')
+                    g, exp, call, site = call_impl(lambda: fp(a, **extra)), tables['pdist'], 'pdist(A as %s' % da, 'distance.pdist'
+                elif op.endswith('self_same'):
+                    a, da = arg('A')
+                    g, exp, call, site = call_impl(lambda: fc(a, a, **extra)), tables['self'], 'cdist(A, A: the same %s object twice' % da, 'distance.cdist'
+                elif op.endswith('self_copy'):
+                    a, da = arg('A')
+                    k2 = rng.choice(SIZED_KINDS + ONESHOT_KINDS)
+                    g, exp, call, site = (call_impl(lambda: fc(a, cont(rng, k2, xs)[0], **extra)), tables['self'],
+                                          'cdist(A as %s, an equal copy of A as %s' % (da, k2), 'distance.cdist')
+                elif op.endswith('swapped'):
+                    (a, da), (b, db) = arg('A'), arg('B')
+                    g, exp, call, site = call_impl(lambda: fc(b, a, **extra)), tables['swapped'], 'cdist(B as %s, A as %s' % (db, da), 'distance.cdist'
+                else:
+                    (a, da), (b, db) = arg('A'), arg('B')
+                    g, exp, call, site = call_impl(lambda: fc(a, b, **extra)), tables['cdist'], 'cdist(A as %s, B as %s' % (da, db), 'distance.cdist'
+                call += ', metric=%s, dtype=%s, **%s)' % (label, dtshow, kwshow)
+                if use_default:
+                    site += '[default metric]'
+                ctx.count('helper_metric_kind=' + (label if use_default else cdesc.split(' returning ')[0]))
+                if not use_default:
+                    ctx.count('helper_value_type=' + vt)
+                    if any(k_ in kw and kw[k_] == FALSY[k_] for k_ in FALSY):
+                        ctx.count('helper_kwargs_with_falsy_value')
+            d = _diff(g, exp, exact)
+            if d is not None:
+                what = ('optimal alignment costs with weights %s' % (w,)) if (op.startswith('m_') or 'default' in op) else 'values metric(u, v, **kwargs) of the callable'
+                ctx.violation('property', '%s: %s  %s; A = %s, B = %s; expected the %s: %s; got %s; earlier in this session (same container objects, refilled in place where '
+                              'marked <>): %s' % (label if op.startswith('m_') else 'helper', call, d, _show(xs), _show(ys), what, str(exp.tolist())[:200], str(g)[:200],
+                                                  history or 'none'),
+                              dict(A=xs, B=ys, weights=w, constructor=spelling if op.startswith('m_') else None, call=call, kwargs=str(kwshow), dtype=dtshow,
+                                   containerA=dx if st['persistent'] else 'fresh', containerB=dy if st['persistent'] else 'fresh',
+                                   earlier_calls=list(history), expected=str(exp.tolist())[:2000], difference=d), site=site)
+            history.append('%s %s' % (label.split(' returning ')[0] if not op.startswith('m_') else spelling, call.split('(')[0] + ('' if op.startswith('m_') else '[%s]' % op)))
+            if len(ctx.violations) > 6:
+                return
+
+
+def part_large(ctx, env):
+    """(e) collections of 13 .. 2**15+ strings (a few distinct strings at many positions, so that the model stays cheap): sizes around
+    64 / 128 / 256 / 1000 / 1024 and one cdist with more than 2**15 rows; expected = the model's matrix of the distinct strings, looked up."""
+    rng, ds = ctx.rng, env['ds']
+    Lev, WLev = env['Levenshtein'], env['WeightedLevenshtein']
+    if ctx.quick:
+        sizes = [rng.randint(13, 40), rng.choice([63, 64, 65, 100, 127, 128, 129]), rng.choice([255, 256, 257]), rng.choice([1000, 1024, 1025]), 2 ** 15 + rng.randint(0, 3)]
+    else:
+        sizes = [rng.randint(13, 60) for _ in range(12)] + [63, 64, 65, 100, 127, 128, 129, 200, 255, 256, 257, 300, 511, 512, 513, 1000, 1024, 1025, 2000] + \
+                [2 ** 15 - 1, 2 ** 15, 2 ** 15 + 1, 2 ** 16 + 1]
+    plans, reqs = [], []
+    for m in sizes:
+        al = draw_alphabet(rng, ctx, 0.4)
+        D = []
+        for _ in range(200):
+            s = ''.join(rng.choice(al) for _ in range(rng.randint(0, 9)))
+            if s not in D:
+                D.append(s)
+            if len(D) >= rng.randint(3, 12):
+                break
+        w = draw_weights(rng)
+        rows_only = m >= 2 ** 15 - 1
+        mb = rng.choice([1, 2, 3]) if rows_only else rng.choice([1, 2, 7, m, m + 1] if m <= 300 else ([1, 3, 40] if ctx.quick else [1, 3, 40, m]))
+        ix = [rng.randrange(len(D)) for _ in range(m)]
+        iy = [rng.randrange(len(D)) for _ in range(mb)]
+        reqs.append(('api_cdist_wlev', [w[0], w[1], w[2], D, D]))
+        plans.append(dict(m=m, mb=mb, D=D, w=w, ix=ix, iy=iy, rows_only=rows_only))
+    outs = ctx.oracle.run_parallel(reqs, nproc=4)
+    for P, M in zip(plans, outs):
+        D, w, ix, iy, m, mb = P['D'], P['w'], P['ix'], P['iy'], P['m'], P['mb']
+        M = _arr(M, (len(D), len(D)))
+        xs, ys = [D[i] for i in ix], [D[j] for j in iy]
+        exp_cd = M[np.ix_(ix, iy)]
+        ctx.count('large_collection_size=%s' % ('>=2**15-1 rows' if P['rows_only'] else ('13..60' if m <= 60 else ('61..300' if m <= 300 else '301..2000'))))
+        ctx.case(nontrivial_key=('large', m, mb, tuple(D), w))
+        metric, spelling = build_metric(rng, w, Lev, WLev)
+        kinds = [k for k in SIZED_KINDS if k not in ('dict', 'dict_keys')]
+        runs = []
+        ka, kb = rng.choice(kinds), rng.choice(kinds)
+        runs.append(('%s.calc_cdist_matrix(A as %s, B as %s)' % (spelling, ka, kb), 'metric.calc_cdist_matrix',
+                     lambda: metric.calc_cdist_matrix(cont(rng, ka, xs)[0], cont(rng, kb, ys)[0]), exp_cd))
+        kw = {} if w == (1, 1, 1) else dict(weights=w)
+        kc, kd = rng.choice(kinds + ONESHOT_KINDS), rng.choice(kinds + ONESHOT_KINDS)
+        runs.append(('cdist(A as %s, B as %s, dtype=int64, **%s)' % (kc, kd, kw), 'distance.cdist[default metric]',
+                     lambda: ds.cdist(cont(rng, kc, xs)[0], cont(rng, kd, ys)[0], dtype=np.int64, **kw), exp_cd))
+        # an injective callable on (string, string): positions of equal strings are interchangeable, everything else shows
+        f = lambda a, b, shift=0: 1000 * D.index(str(a)) + D.index(str(b)) + shift                    # noqa: E731
+        F = np.array([[f(a, b, shift=3) for b in D] for a in D], dtype=np.int64)
+        runs.append(('cdist(A, B, metric=f, dtype=int64, shift=3) with f(a, b) = 1000*id(a)+id(b)+shift', 'distance.cdist',
+                     lambda: ds.cdist(iter(xs), tuple(ys), f, np.int64, shift=3), F[np.ix_(ix, iy)]))
+        if not P['rows_only']:
+            exp_pd = condensed(M[np.ix_(ix, ix)])
+            ke, kf = rng.choice(kinds), rng.choice(kinds + ONESHOT_KINDS)
+            runs.append(('%s.calc_pdist_vector(A as %s)' % (spelling, ke), 'metric.calc_pdist_vector', lambda: metric.calc_pdist_vector(cont(rng, ke, xs)[0]), exp_pd))
+            runs.append(('pdist(A as %s, dtype=int64, **%s)' % (kf, kw), 'distance.pdist[default metric]',
+                         lambda: ds.pdist(cont(rng, kf, xs)[0], dtype=np.int64, **kw), exp_pd))
+            runs.append(('pdist(A, metric=f, dtype=int64, shift=3) with f(a, b) = 1000*id(a)+id(b)+shift', 'distance.pdist',
+                         lambda: ds.pdist(cont(rng, rng.choice(kinds), xs)[0], metric=f, dtype=np.int64, shift=3), condensed(F[np.ix_(ix, ix)])))
+        for call, site, thunk, exp in runs:
+            d = _diff(call_impl(thunk), exp)
+            if d is not None:
+                ctx.violation('property', '%s on a collection of %d strings (B: %d) drawn from the %d distinct strings %s, weights %s: %s; positions of A: %s..., of B: %s...' %
+                              (call, m, mb, len(D), D, w, d, ix[:20], iy[:20]),
+                              dict(distinct=D, positions_A=ix, positions_B=iy, weights=w, call=call, difference=d), site=site)
+        if len(ctx.violations) > 6:
+            return
+
+
+def part_scaled(ctx, env):
+    """(f) values far above 2**16 without long strings: weights c*(wi, wd, ws); by C08_scale the optimal cost is c times the model's cost
+    for (wi, wd, ws).  Metric classes up to 2**24 (float32 storage of rapidfuzz for a weighted scorer, C08_bounded), helpers (int64) beyond 2**32."""
+    rng, ds = ctx.rng, env['ds']
+    plans, reqs = [], []
+    for _ in range(16 if ctx.quick else 200):
+        al = draw_alphabet(rng, ctx, 0.4)
+        m, mb = rng.randint(2, 8), rng.randint(1, 5)
+        xs = [''.join(rng.choice(al) for _ in range(rng.randint(0, 12))) for _ in range(m)]
+        ys = [gens.mutate(rng, rng.choice(xs), al, rng.randint(0, 3)) if rng.random() < 0.5 else ''.join(rng.choice(al) for _ in range(rng.randint(0, 9))) for _ in range(mb)]
+        w = draw_weights(rng)
+        bound = max(w[1] * len(a) + w[0] * len(b) for a in xs + ys for b in xs + ys)
+        cs = [c for c in (251, 1000, 4099, 60013) if c * bound < 2 ** 24]
+        plans.append(dict(xs=xs, ys=ys, w=w, c=max(cs) if rng.random() < 0.6 else rng.choice(cs), chuge=rng.choice([2 ** 32 + 1, 10 ** 9 + 7, 3 * 10 ** 12])))
+        reqs += [('api_cdist_wlev', [w[0], w[1], w[2], xs, ys]), ('api_pdist_wlev', [w[0], w[1], w[2], xs])]
+    outs = ctx.oracle.run_parallel(reqs, nproc=4)
+    for n, P in enumerate(plans):
+        xs, ys, w, c = P['xs'], P['ys'], P['w'], P['c']
+        cd, pd_ = _arr(outs[2 * n], (len(xs), len(ys))), _arr(outs[2 * n + 1], (len(outs[2 * n + 1]),))
+        top = int(max([0] + cd.ravel().tolist() + pd_.tolist())) * c
+        ctx.count('scaled_weights_top_value=%s' % ('>2**20' if top > 2 ** 20 else ('>65535' if top > 65535 else ('>255' if top > 255 else '<=255'))))
+        ctx.case(nontrivial_key=('scaled', tuple(xs), tuple(ys), w, c) if top > 0 else None)
+        wc = tuple(c * v for v in w)
+        metric, spelling = build_metric(rng, wc, env['Levenshtein'], env['WeightedLevenshtein'])
+        kinds = SIZED_KINDS
+        runs = [('%s.calc_cdist_matrix' % spelling, 'metric.calc_cdist_matrix', lambda: metric.calc_cdist_matrix(cont(rng, rng.choice(kinds), xs)[0], cont(rng, rng.choice(kinds), ys)[0]), c * cd),
+                ('%s.calc_pdist_vector' % spelling, 'metric.calc_pdist_vector', lambda: metric.calc_pdist_vector(cont(rng, rng.choice(kinds), xs)[0]), c * pd_)]
+        dt = rng.choice([np.int64, np.uint32, np.float64, np.int32])
+        runs += [('cdist(A, B, dtype=%s, weights=%s)' % (dt.__name__, wc), 'distance.cdist[default metric]', lambda: ds.cdist(xs, ys, dtype=dt, weights=wc), c * cd),
+                 ('pdist(A, dtype=%s, weights=%s)' % (dt.__name__, wc), 'distance.pdist[default metric]', lambda: ds.pdist(xs, dtype=dt, weights=wc), c * pd_)]
+        ch = P['chuge']
+        wh = tuple(ch * v for v in w)
+        runs += [('cdist(A, B, dtype=int64, weights=%s)' % (wh,), 'distance.cdist[default metric]', lambda: ds.cdist(xs, ys, None, np.int64, weights=wh), ch * cd),
+                 ('pdist(A, dtype=int64, weights=%s)' % (wh,), 'distance.pdist[default metric]', lambda: ds.pdist(xs, None, np.int64, weights=wh), ch * pd_)]
+        for call, site, thunk, exp in runs:
+            d = _diff(call_impl(thunk), exp)                       # all values below 2**53: the float64 comparison is exact
+            if d is not None:
+                ctx.violation('property', '%s on A = %s, B = %s: %s; the weights are %d resp. %d times %s, so the optimal alignment costs are that multiple of the '
+                              'model\'s costs %s / %s (C08_scale)' % (call, xs, ys, d, c, ch, w, cd.tolist(), pd_.tolist()),
+                              dict(A=xs, B=ys, base_weights=w, factor=c, huge_factor=ch, call=call, difference=d), site=site)
+        if len(ctx.violations) > 6:
+            return
+
+
+def part_long(ctx, env):
+    """(g) long strings.  (g1) lengths around 64 / 128 / 256 against the model (exact).  (g2) one string of more than 65 535 code points:
+    exact against the empty string and against itself (C08_empty_and_self), two-sided bound against short strings (C08_length_lower,
+    C08_bounded) - a value wrapped modulo 2**16, clamped at 65 535 or computed on a truncated string meets neither."""
+    rng, ds, RL = ctx.rng, env['ds'], env['RL']
+    Lev, WLev = env['Levenshtein'], env['WeightedLevenshtein']
+    # ---- (g1)
+    bs = [rng.choice([64, 128, 256])] if ctx.quick else [64, 128, 256]
+    for b in bs:
+        def rnd(al, n):
+            return ''.join(rng.choice(al) for _ in range(n))
+        v = rnd('AC', b)
+        xs = [rnd('AC', b - 1), v, rnd('GT', b), rnd('GT', b + 1), '', gens.mutate(rng, v, 'AC', 2), rnd('GT', 3)]
+        rng.shuffle(xs)
+        w = (1, 1, 1) if b > 64 or rng.random() < 0.5 else draw_weights(rng)
+        prs = [(i, j) for i in range(len(xs)) for j in range(i + 1, len(xs))]
+        outs = ctx.oracle.run_parallel([('api_wlev', [w[0], w[1], w[2], xs[i], xs[j]]) for i, j in prs], nproc=4)
+        sq = np.zeros((len(xs), len(xs)), dtype=np.int64)
+        for (i, j), o in zip(prs, outs):
+            sq[i, j] = o
+        ctx.count('boundary_length=%d' % b)
+        ctx.case(nontrivial_key=('boundary', b, tuple(xs), w))
+        metric, spelling = build_metric(rng, w, Lev, WLev)
+        k = rng.randint(1, len(xs) - 1)
+        kw = {} if w == (1, 1, 1) else dict(weights=w)
+        kinds = SIZED_KINDS
+        runs = [('%s.calc_pdist_vector' % spelling, 'metric.calc_pdist_vector', lambda: metric.calc_pdist_vector(cont(rng, rng.choice(kinds), xs)[0]), condensed(sq)),
+                ('%s.calc_cdist_matrix(X[:%d], X[%d:])' % (spelling, k, k), 'metric.calc_cdist_matrix',
+                 lambda: metric.calc_cdist_matrix(cont(rng, rng.choice(kinds), xs[:k])[0], cont(rng, rng.choice(kinds), xs[k:])[0]), sq[:k, k:]),
+                ('pdist(X, dtype=int64, **%s)' % kw, 'distance.pdist[default metric]', lambda: ds.pdist(cont(rng, rng.choice(kinds), xs)[0], dtype=np.int64, **kw), condensed(sq)),
+                ('cdist(X[:%d], X[%d:], dtype=uint16, **%s)' % (k, k, kw), 'distance.cdist[default metric]',
+                 lambda: ds.cdist(xs[:k], xs[k:], dtype=np.uint16, **kw), sq[:k, k:])]
+        for call, site, thunk, exp in runs:
+            d = _diff(call_impl(thunk), exp)
+            if d is not None:
+                ctx.violation('property', '%s on strings of lengths %s (weights %s): %s; X = %s' % (call, [len(x) for x in xs], w, d, _show(xs)),
+                              dict(X=xs, weights=w, call=call, difference=d), site=site)
+    # ---- (g2)
+    Ls = [65535 + rng.choice([1, 2]), 2 ** 17 + rng.choice([1, 2, 3])] if ctx.quick else [65535, 65536, 65537, 70001, 2 ** 17 - 1, 2 ** 17 + 1, 2 ** 18 + 5]
+    longs = {}
+    for L, unit in [(L_, u_) for L_ in Ls for u_ in (True, False)]:
+        if L not in longs:
+            al = rng.choice(['ACGT', gens.AA, WIDE_ALPHABETS['mixed_width'], WIDE_ALPHABETS['same_low_bits']])
+            longs[L] = (al, ''.join(rng.choices(al, k=L)))
+        al, x = longs[L]
+        shorts = [''.join(rng.choice(al) for _ in range(rng.randint(1, 9))) for _ in range(3)]
+        # (the unit-weight scorer of rapidfuzz.process.cdist runs the full bit-parallel pass on a pair of equal strings: L*L/64 word
+        # operations; above 2**17 the long string therefore occurs once, and only on one side)
+        xs = [x, '', shorts[0], x, shorts[1]] if L <= 70001 else [x, '', shorts[0], shorts[1]]
+        rng.shuffle(xs)
+        ys = ['', x, shorts[2]] if L <= 70001 else ['', shorts[2]]
+        rng.shuffle(ys)
+        w = (1, 1, 1) if unit else rng.choice(SPECIAL_WEIGHTS + [tuple(rng.choice(W_ALL) for _ in range(3))])
+        ctx.count('very_long_string_length=%s%s' % ('65535..65537' if L <= 65537 else '>=70001', ', unit weights' if unit else ', weighted'))
+        ctx.count('very_long_string_length>2**17', int(L > 2 ** 17))
+        ctx.case(nontrivial_key=('very_long', L, w, tuple(shorts)))
+        sh = sorted(set(shorts))
+        small = _arr(ctx.oracle.run([('api_cdist_wlev', [w[0], w[1], w[2], sh, sh])])[0], (len(sh), len(sh)))
+
+        def bounds(a, b):
+            """(lo, hi): equal where a theorem gives the value, else the two-sided bound"""
+            if a == b:
+                return 0, 0
+            if a == '':
+                return w[0] * len(b), w[0] * len(b)
+            if b == '':
+                return w[1] * len(a), w[1] * len(a)
+            if len(a) < 20 and len(b) < 20:
+                v = int(small[sh.index(a), sh.index(b)])
+                return v, v
+            return max(w[1] * (len(a) - len(b)), w[0] * (len(b) - len(a)), 0), w[1] * len(a) + w[0] * len(b)
+        metric, spelling = build_metric(rng, w, Lev, WLev)
+        kw = {} if w == (1, 1, 1) else dict(weights=w)
+        kinds = [k_ for k_ in SIZED_KINDS if k_ not in ('dict', 'dict_keys')]
+        prs = [(a, b) for i, a in enumerate(xs) for b in xs[i + 1:]]
+        runs = [('%s.calc_cdist_matrix(A, B)' % spelling, 'metric.calc_cdist_matrix',
+                 lambda: metric.calc_cdist_matrix(cont(rng, rng.choice(kinds), xs)[0], cont(rng, rng.choice(kinds), ys)[0]), [(a, b) for a in xs for b in ys], (len(xs), len(ys))),
+                ('%s.calc_pdist_vector(A)' % spelling, 'metric.calc_pdist_vector', lambda: metric.calc_pdist_vector(cont(rng, rng.choice(kinds), xs)[0]), prs, (len(prs),)),
+                ('cdist(A, B, dtype=int64, **%s)' % kw, 'distance.cdist[default metric]',
+                 lambda: ds.cdist(cont(rng, rng.choice(kinds), xs)[0], cont(rng, rng.choice(kinds), ys)[0], dtype=np.int64, **kw), [(a, b) for a in xs for b in ys], (len(xs), len(ys))),
+                ('pdist(A, dtype=float64, **%s)' % kw, 'distance.pdist[default metric]', lambda: ds.pdist(cont(rng, rng.choice(kinds), xs)[0], dtype=np.float64, **kw), prs, (len(prs),)),
+                ('pdist(A, metric=rapidfuzz Levenshtein.distance, dtype=uint32, **%s)' % kw, 'distance.pdist',
+                 lambda: ds.pdist(xs, RL.distance, np.uint32, **kw), prs, (len(prs),))]
+        for call, site, thunk, pairs, shape in runs:
+            g = call_impl(thunk)
+            bad = None
+            if g[0] != 'ok' or np.asarray(g[1]).shape != shape:
+                bad = 'returned %s, expected an array of shape %s' % (str(g)[:100], shape)
+            else:
+                for (a, b), val in zip(pairs, np.asarray(g[1]).astype(np.float64).ravel().tolist()):
+                    lo, hi = bounds(a, b)
+                    if not (lo <= val <= hi and val == int(val)):
+                        bad = 'd(%s -> %s) = %s, but the optimal alignment cost is %s' % (_show([a])[0] or "''", _show([b])[0] or "''", val,
+                                                                                            lo if lo == hi else 'between %d and %d' % (lo, hi))
+                        break
+            if bad is not None:
+                ctx.violation('property', '%s with one string of %d code points, weights %s: %s; A = %s, B = %s' % (call, L, w, bad, _show(xs), _show(ys)),
+                              dict(long_length=L, alphabet=al, A=_show(xs, 40), B=_show(ys, 40), weights=w, call=call, difference=bad), site=site)
+        if len(ctx.violations) > 6:
+            return
+
+
+
+def run_balanced(ctx, reqs, nproc):
+    """ctx.oracle.run_parallel with the requests dealt out by decreasing cost (the model's cost grows with the product of the string
+    lengths and, on unary nat, with the values): the few long collections no longer end up in one chunk.  Same requests, same answers."""
+    def cost(r):
+        name, args = r
+        size = [float(len(a)) if isinstance(a, str) else sum(len(x) for x in a) for a in args if isinstance(a, (list, str))]
+        return size[0] * size[-1] * max([a for a in args if isinstance(a, int)] + [1]) if size else 0
+    order = sorted(range(len(reqs)), key=lambda k: -cost(reqs[k]))
+    got = ctx.oracle.run_parallel([reqs[k] for k in order], nproc=nproc)
+    outs = [None] * len(reqs)
+    for k, o in zip(order, got):
+        outs[k] = o
+    return outs
+
+
 def run(ctx):
     import pyrepseq.distance as ds
     from pyrepseq.metric import Levenshtein, WeightedLevenshtein
@@ -130,7 +795,17 @@ def run(ctx):
                 'gapped, string, repeated index / pandas Index / deque); (c) functional pdist / cdist, for every container above plus '
                 'iterator / generator on either argument: metric callables that encode their two arguments injectively and take extra '
                 'keyword arguments, and the DEFAULT metric with the keyword arguments its scorer accepts (weights, score_cutoff, score_hint, '
-                'processor) against api_pdist_wlev / api_cdist_wlev. non-trivial := distance > 0 and (weights asymmetric or lengths differ)')
+                'processor) against api_pdist_wlev / api_cdist_wlev; (d) sessions: one pair of collections held in container OBJECTS that are re-used and '
+                'refilled in place between the calls, evaluated in random order by metric objects built through every constructor spelling (keywords, '
+                'partial defaults, NumPy integers; weight triples in which only some weights differ from 1) - calc_cdist_matrix(A, B) / (B, A) / (A, A) with the '
+                'same object or an equal copy, calc_pdist_vector (+ scipy linkage / squareform / is_valid_y accept it) - and by pdist / cdist (module and package '
+                'level names) with the default metric, the rapidfuzz / python-Levenshtein C functions and callables of every kind (function, lambda, partial, bound '
+                'method, callable object, falsy callable object) returning int / float / negative / above-2**53 values, with keyword arguments that are falsy; '
+                '(e) collections of 13 .. 2**16+1 strings (sizes around 64 / 128 / 256 / 512 / 1000 / 1024, more than 2**15 rows); (f) weights c*(wi, wd, ws) with '
+                'values up to 2**24 (classes) and beyond 2**32 (helpers), expected c * model (C08_scale); (g) strings of 63..257 code points (exact) and of more than '
+                '65 535 / 2**17 code points (exact against the empty string and itself: C08_empty_and_self; two-sided bound otherwise: C08_length_lower, C08_bounded); '
+                'pandas string / category dtypes, NumPy StringDType, strided / reversed views and dict views as containers everywhere. '
+                'non-trivial := distance > 0 and (weights asymmetric or lengths differ)')
     L = 4 if ctx.quick else 6
     univ = all_strings('AC', L) + all_strings('ACD', L - 2)
     pairs = list(itertools.product(univ, univ))
@@ -144,13 +819,20 @@ def run(ctx):
         a = ''.join(rng.choice(al) for _ in range(n1))
         b = gens.mutate(rng, a, al, rng.randint(0, 30)) if rng.random() < 0.5 else ''.join(rng.choice(al) for _ in range(n2))
         pairs.append((a, b))
+    border = [63, 64, 65, 127, 128, 129, 255, 256, 257]      # word-size borders of the bit-parallel implementations, 8-bit borders of the values
+    for _ in range(6 if ctx.quick else 60):
+        al = rng.choice(alphas)
+        a = ''.join(rng.choice(al) for _ in range(rng.choice(border)))
+        b = gens.mutate(rng, a, al, rng.randint(0, 5)) if rng.random() < 0.5 else ''.join(rng.choice(rng.choice([al, 'xy'])) for _ in range(rng.choice(border)))
+        ctx.count('foundation_border_length_pair')
+        pairs.append((a, b))
     W = [1, 2, 3, 5, 7, 11]
     reqs, meta = [], []
     for a, b in pairs:
         w = (1, 1, 1) if (len(a) > 150 or len(b) > 150 or rng.random() < 0.4) else tuple(rng.choice(W) for _ in range(3))
         reqs.append(('api_wlev', [w[0], w[1], w[2], a, b]))
         meta.append(w)
-    outs = ctx.oracle.run_parallel(reqs, nproc=12)
+    outs = run_balanced(ctx, reqs, nproc=12)
     hreq = [('api_ham', [a, b]) for a, b in pairs[:400]]
     houts = ctx.oracle.run_parallel(hreq)
     for n, ((a, b), w, o) in enumerate(zip(pairs, meta, outs)):
@@ -249,9 +931,25 @@ def run(ctx):
     reqs, where = [], {}
     for n, c in enumerate(colls):
         for w in dict.fromkeys(c['ws']):
-            where[(n, w)] = len(reqs)
-            reqs += [('api_cdist_wlev', [w[0], w[1], w[2], c['xs'], c['ys']]), ('api_pdist_wlev', [w[0], w[1], w[2], c['xs']])]
-    outs = ctx.oracle.run_parallel(reqs, nproc=12)
+            if c['tag'] == 'collection_short':
+                where[(n, w)] = (len(reqs), None)
+                reqs += [('api_cdist_wlev', [w[0], w[1], w[2], c['xs'], c['ys']]), ('api_pdist_wlev', [w[0], w[1], w[2], c['xs']])]
+            else:
+                # long strings: one request per distinct pair (a single 250 x 250 weighted pair takes the model seconds; as one request per
+                # collection the whole batch waited for the slowest collection); the tables are put together below in the order of the statement
+                xs_, ys_ = c['xs'], c['ys']
+                prs = list(dict.fromkeys([(a, b) for a in xs_ for b in ys_] + [(xs_[i], xs_[j]) for i in range(len(xs_)) for j in range(i + 1, len(xs_))]))
+                where[(n, w)] = (len(reqs), prs)
+                reqs += [('api_wlev', [w[0], w[1], w[2], a, b]) for a, b in prs]
+    outs = run_balanced(ctx, reqs, nproc=12)
+    tab = {}
+    for (n, w), (k0, prs) in where.items():
+        if prs is None:
+            tab[(n, w)] = (outs[k0], outs[k0 + 1])
+        else:
+            dv = {pr: outs[k0 + k] for k, pr in enumerate(prs)}
+            xs_, ys_ = colls[n]['xs'], colls[n]['ys']
+            tab[(n, w)] = ([[dv[(a, b)] for b in ys_] for a in xs_], [dv[(xs_[i], xs_[j])] for i in range(len(xs_)) for j in range(i + 1, len(xs_))])
 
     pool = {}
 
@@ -273,7 +971,7 @@ def run(ctx):
         calls = [(k, op) for k in range(len(objs)) for op in ('pdist', 'cdist')]
         rng.shuffle(calls)
         calls += [rng.choice(calls) for _ in range(rng.randint(1, 3))]        # ... A B A: an earlier object again after the others
-        cd0 = outs[where[(n, c['ws'][0])]]
+        cd0 = tab[(n, c['ws'][0])][0]
         nt = any(v > 0 for row in cd0 for v in row) and len(xs) >= 2
         ctx.case(sample=dict(metrics=['%s%s' % (type(o).__name__, w) for w, o in objs], A=[x[:10] for x in xs[:4]], B=[y[:10] for y in ys[:4]],
                              variant_of_previous=c['derived']) if nt and n % 20 == 0 else None,
@@ -282,7 +980,7 @@ def run(ctx):
         history = []
         for k, op in calls:
             w, metric = objs[k]
-            cd, pd_ = outs[where[(n, w)]], outs[where[(n, w)] + 1]
+            cd, pd_ = tab[(n, w)]
             label = '%s%s#%d' % (type(metric).__name__, w, k)
             kx, ky = rng.choice(kinds_b), rng.choice(kinds_b)
             ctx.count('container=' + kx)
@@ -498,8 +1196,18 @@ def run(ctx):
     g = call_impl(ds.pdist, xs)
     if g[0] != 'ok' or [int(v) for v in g[1]] != o:
         ctx.violation('property', 'pdist default metric is not Levenshtein: %s vs %s' % (g, o), dict(X=xs), site='distance.pdist')
+    # ------------------------------------------------------------------ (d)-(g) widened families
+    import pyrepseq as pkg
+    import scipy.cluster.hierarchy as hc
+    env = dict(ds=ds, pkg=pkg, Levenshtein=Levenshtein, WeightedLevenshtein=WeightedLevenshtein, RL=RL, PL=PL, hc=hc, ssd=ssd)
+    for part in (part_sessions, part_large, part_scaled, part_long):
+        part(ctx, env)
+        if len(ctx.violations) > 6:
+            return
     ctx.assumptions += ['result dtypes of rapidfuzz process.cdist (uint32 for the C scorer, float32 for a Python-lambda scorer): exact below 2^32 / 2^24 (C08_bounded)',
                         'scipy squareform(checks=False) takes the strict upper triangle row-major (modelled, exercised)',
+                        'above 2**17 code points / above weights 11 the expected values are closed forms proved from the model (C08_scale, C08_empty_and_self, '
+                        'C08_length_lower, C08_bounded), not evaluations of it',
                         'python-Levenshtein distance(score_cutoff=c) reports c+1 for distances above c; processor= is applied to both strings first '
                         '(contract of the default scorer of pdist / cdist, tied by correspondence)']
 
